@@ -7,7 +7,9 @@ three consecutive invocations are *aborted*:
   * Bob is killed (os._exit, no finally/finalize) at its k-th kill point --
     every persistent-state save (before write / before rename / after rename),
     every fs mutation of the builder, around every subprocess / executor job;
-  * SIGINT (user abort) at a virtual instant with -jN.
+  * SIGINT (user abort) at a virtual instant with -jN;
+  * an SCM fails: the upstream of a url SCM (deterministic, SCM-only checkout pinned by
+    digest) is unreachable while the invocation runs.
 Then the stale lock is removed and a fault-free invocation must succeed, every
 package result must equal the clean build of the current project state, and a
 further repeat must execute nothing.  In enumeration cases every kill point of
@@ -58,10 +60,17 @@ def _gen_abort(rng, jobs):
 
 def gen_case(rng, tier, index):
     model = projgen.gen_valid_project(rng)
+    url = index % 3 == 2 and projgen.add_url_sources(rng, model) > 0
     pre = []
     hist = [model]
     cur = model
-    if rng.random() < 0.6:
+    if url and rng.random() < 0.7:
+        # a new upstream release is pinned by the recipe: the SCM-only checkout runs again
+        e = projgen.gen_edit(rng, cur, hist, ["url_change"])
+        if e is not None:
+            pre.append({"edit": e})
+            cur = projgen.apply_edit(cur, e, hist)
+    elif rng.random() < 0.6:
         # a good build first, then an edit: the abort hits an incremental build
         # content-only edits (no Variant-Id change) are the interesting ones for
         # stale "up to date" decisions, so they get half of the weight
@@ -75,6 +84,12 @@ def gen_case(rng, tier, index):
             cur = projgen.apply_edit(cur, e, hist)
     jobs = rng.choice([1, 1, 2, 4])
     aborts = [_gen_abort(rng, jobs) for _ in range(rng.choice([1, 1, 2, 3]))]
+    if url:
+        # the upstream server is unreachable while the invocation runs: an SCM fails
+        for a in aborts:
+            if rng.random() < 0.6:
+                a.clear()
+                a.update({"kind": "scm-fail", "jobs": jobs, "sched_seed": rng.getrandbits(32)})
     post = []
     if pre and rng.random() < 0.6:
         # after the aborted runs the user reverts the edit (or edits again)
@@ -158,8 +173,10 @@ def run_case(case):
         os.makedirs(proj)
         clock = projgen.StampClock()
         oracle = buildsim.CleanOracle(top, True)
-        model = case["model"]
+        up = os.path.join(top, "upstream")
+        model = dict(case["model"], upstream_root=up)
         hist = [model]
+        projgen.write_upstream(model)
         files = projgen.materialise(model, proj, clock)
         if case.get("good_first"):
             r = buildsim.bob(proj, ["dev", "root"], {"sched_seed": 1})
@@ -169,6 +186,7 @@ def run_case(case):
         for p in case["pre"]:
             model = projgen.apply_edit(model, p["edit"], hist)
             hist.append(model)
+            projgen.write_upstream(model)
             files = projgen.materialise(model, proj, clock, files)
         if oracle.get(model)["rc"] != 0:
             stats.inc("invalid_project_state")
@@ -203,8 +221,15 @@ def run_case(case):
         else:
             for i, a in enumerate(case["aborts"]):
                 _unlock(proj)
-                r = buildsim.bob(proj, ["dev", "-j", str(a["jobs"]), "root"], _cfg(a))
-                fired = (r.killed or any(e[0] in ("script-fault-fired", "SIGINT") for e in r.events))
+                if a["kind"] == "scm-fail" and os.path.isdir(up):
+                    os.rename(up, up + ".unreachable")
+                try:
+                    r = buildsim.bob(proj, ["dev", "-j", str(a["jobs"]), "root"], _cfg(a))
+                finally:
+                    if os.path.isdir(up + ".unreachable"):
+                        os.rename(up + ".unreachable", up)
+                fired = (r.killed or any(e[0] in ("script-fault-fired", "SIGINT") for e in r.events)
+                         or (a["kind"] == "scm-fail" and r.rc != 0))
                 log.append(("abort", i, a["kind"], r.rc, fired, [e[2] for e in r.events if e[0] == "KILL"]))
                 if fired:
                     fired_any = True
@@ -222,6 +247,7 @@ def run_case(case):
                 for p in case.get("post", []):
                     model = projgen.apply_edit(model, p["edit"], hist)
                     hist.append(model)
+                    projgen.write_upstream(model)
                     files = projgen.materialise(model, proj, clock, files)
                     stats.inc("post_abort_edit_" + p["edit"]["kind"])
                 viol, reexec = _final_check(proj, model, oracle, case, stats, log, "after-aborts")
@@ -267,6 +293,44 @@ def directed_cases(tier):
                     "good_first": True, "aborts": [a], "final_jobs": 1, "final_seed": rng.getrandbits(32),
                     "directed": "content edit, abort in the re-run step, revert"})
     return out
+
+def _directed_url(tier):
+    """Deterministic SCM-only checkout (url SCM pinned by digest), built once; the recipe moves to a
+    new upstream release; the fetch fails (upstream unreachable) or Bob is killed during the
+    checkout; plain re-invocation (or revert) must converge to the clean build."""
+    import random
+    rng = random.Random(5051)
+    out = []
+    want = 18 if tier == "thorough" else 6
+    tries = 0
+    while len(out) < want and tries < 200:
+        tries += 1
+        model = projgen.gen_valid_project(rng, features={"vars", "diamond"} | set(rng.sample(["tools", "classes", "checkoutscript"], rng.randint(0, 1))))
+        if projgen.add_url_sources(rng, model, p=0.7) == 0:
+            continue
+        e = projgen.gen_edit(rng, model, [model], ["url_change"])
+        if e is None:
+            continue
+        i = len(out)
+        if i % 3 == 2:
+            a = {"kind": "script-kill", "jobs": 1, "sched_seed": rng.getrandbits(32), "match": "/build/", "at": rng.randint(2, 6)}
+        else:
+            a = {"kind": "scm-fail", "jobs": rng.choice([1, 2]), "sched_seed": rng.getrandbits(32)}
+        post = [] if i % 2 == 0 else [{"edit": {"kind": "revert", "to": 0}}]
+        out.append({"model": model, "pre": [{"edit": e}], "post": post, "good_first": True, "aborts": [a] * (1 + i % 2),
+                    "final_jobs": 1, "final_seed": rng.getrandbits(32),
+                    "directed": "SCM-only checkout moves to a new release, fetch fails, re-invocation"})
+    # every kill point of the invocation that switches the url SCM
+    if out:
+        c = dict(out[0], aborts=[{"kind": "bob-kill", "jobs": 1, "sched_seed": 7, "point": 1}], enumerate=True,
+                 max_points=40 if tier == "thorough" else 12, offset=3, post=[],
+                 directed="SCM-only checkout moves to a new release, Bob killed at every k-th point")
+        out.append(c)
+    return out
+
+_directed_scripts = directed_cases
+def directed_cases(tier):
+    return _directed_scripts(tier) + _directed_url(tier)
 
 def fixup(case):
     if not case["aborts"]:
